@@ -17,9 +17,10 @@ mod sim_d2;
 mod sim_e;
 mod sim_f;
 mod sim_g;
+mod sim_h;
 mod world;
 
-use kit::{Opts, Sim};
+use kit::Opts;
 
 fn arg_val(args: &[String], name: &str) -> Option<String> {
     args.iter()
@@ -27,69 +28,52 @@ fn arg_val(args: &[String], name: &str) -> Option<String> {
         .and_then(|i| args.get(i + 1).cloned())
 }
 
-fn dispatch_run(prop: &str, opts: &Opts) -> i32 {
-    match prop {
-        "C01" => kit::run_batch(&sim_a::SimA { prop: sim_a::PropA::C01 }, opts).exit_code,
-        "C09" => kit::run_batch(&sim_a::SimA { prop: sim_a::PropA::C09 }, opts).exit_code,
-        "C03" => kit::run_batch(&sim_b::SimB { prop: sim_b::PropB::C03 }, opts).exit_code,
-        "C14" => kit::run_batch(&sim_b::SimB { prop: sim_b::PropB::C14 }, opts).exit_code,
-        "C15" => kit::run_batch(&sim_b::SimB { prop: sim_b::PropB::C15 }, opts).exit_code,
-        "C19" => kit::run_batch(&sim_b::SimB { prop: sim_b::PropB::C19 }, opts).exit_code,
-        "C10" => kit::run_batch(&sim_f::SimF, opts).exit_code,
-        "C07" => kit::run_batch(&sim_c::SimC7, opts).exit_code,
-        "C04" => kit::run_batch(&sim_c::SimC4, opts).exit_code,
-        "C08" => kit::run_batch(&sim_e::SimE, opts).exit_code,
-        "C12" => kit::run_batch(&sim_d1::SimD1, opts).exit_code,
-        "C06" => kit::run_batch(&sim_d2::SimD2, opts).exit_code,
-        "C20" => kit::run_batch(&sim_g::SimG, opts).exit_code,
-        other => {
-            eprintln!("HARNESS-ERROR: no simulator registered for property {other}");
-            2
+/// Expands `$body` with `$s` bound to the simulator registered for `$prop`.
+/// C01 C03 C07 C10 C14 are decided by their own simulator plus the whole-system simulator (H),
+/// which gets every N-th run; `H:<ID>` runs the whole-system part alone.
+macro_rules! with_sim {
+    ($prop:expr, $s:ident => $body:expr, $other:ident => $else:expr) => {
+        match $prop {
+            "C01" => { let $s = &kit::Plus { a: sim_a::SimA { prop: sim_a::PropA::C01 }, b: sim_h::SimH { prop: sim_h::PropH::C01 }, every: 40, name: "A:exchange-report-delivery + H:whole-system(virtual time)" }; $body }
+            "H:C01" => { let $s = &kit::Plus { a: sim_a::SimA { prop: sim_a::PropA::C01 }, b: sim_h::SimH { prop: sim_h::PropH::C01 }, every: 1, name: "H:whole-system(virtual time)" }; $body }
+            "C09" => { let $s = &sim_a::SimA { prop: sim_a::PropA::C09 }; $body }
+            "C03" => { let $s = &kit::Plus { a: sim_b::SimB { prop: sim_b::PropB::C03 }, b: sim_h::SimH { prop: sim_h::PropH::C03 }, every: 10, name: "B:engine+execution-links + H:whole-system(virtual time)" }; $body }
+            "H:C03" => { let $s = &kit::Plus { a: sim_b::SimB { prop: sim_b::PropB::C03 }, b: sim_h::SimH { prop: sim_h::PropH::C03 }, every: 1, name: "H:whole-system(virtual time)" }; $body }
+            "C14" => { let $s = &kit::Plus { a: sim_b::SimB { prop: sim_b::PropB::C14 }, b: sim_h::SimH { prop: sim_h::PropH::C14 }, every: 20, name: "B:engine+execution-links + H:whole-system(virtual time)" }; $body }
+            "H:C14" => { let $s = &kit::Plus { a: sim_b::SimB { prop: sim_b::PropB::C14 }, b: sim_h::SimH { prop: sim_h::PropH::C14 }, every: 1, name: "H:whole-system(virtual time)" }; $body }
+            "C15" => { let $s = &sim_b::SimB { prop: sim_b::PropB::C15 }; $body }
+            "C19" => { let $s = &sim_b::SimB { prop: sim_b::PropB::C19 }; $body }
+            "C10" => { let $s = &kit::Plus { a: sim_f::SimF, b: sim_h::SimH { prop: sim_h::PropH::C10 }, every: 8, name: "F:audit-stream+replica + H:whole-system(virtual time)" }; $body }
+            "H:C10" => { let $s = &kit::Plus { a: sim_f::SimF, b: sim_h::SimH { prop: sim_h::PropH::C10 }, every: 1, name: "H:whole-system(virtual time)" }; $body }
+            "C07" => { let $s = &kit::Plus { a: sim_c::SimC7, b: sim_h::SimH { prop: sim_h::PropH::C07 }, every: 20, name: "C:execution-manager(virtual time) + H:whole-system(virtual time)" }; $body }
+            "H:C07" => { let $s = &kit::Plus { a: sim_c::SimC7, b: sim_h::SimH { prop: sim_h::PropH::C07 }, every: 1, name: "H:whole-system(virtual time)" }; $body }
+            "C04" => { let $s = &sim_c::SimC4; $body }
+            "C08" => { let $s = &sim_e::SimE; $body }
+            "C12" => { let $s = &sim_d1::SimD1; $body }
+            "C06" => { let $s = &sim_d2::SimD2; $body }
+            "C20" => { let $s = &sim_g::SimG; $body }
+            $other => $else,
         }
-    }
+    };
+}
+
+fn dispatch_run(prop: &str, opts: &Opts) -> i32 {
+    with_sim!(prop, s => kit::run_batch(s, opts).exit_code, other => {
+        eprintln!("HARNESS-ERROR: no simulator registered for property {other}");
+        2
+    })
 }
 
 fn dispatch_plan(prop: &str, seed: u64, i: u64) -> i32 {
-    match prop {
-        "C01" => kit::print_plan(&sim_a::SimA { prop: sim_a::PropA::C01 }, seed, i),
-        "C09" => kit::print_plan(&sim_a::SimA { prop: sim_a::PropA::C09 }, seed, i),
-        "C03" => kit::print_plan(&sim_b::SimB { prop: sim_b::PropB::C03 }, seed, i),
-        "C14" => kit::print_plan(&sim_b::SimB { prop: sim_b::PropB::C14 }, seed, i),
-        "C15" => kit::print_plan(&sim_b::SimB { prop: sim_b::PropB::C15 }, seed, i),
-        "C19" => kit::print_plan(&sim_b::SimB { prop: sim_b::PropB::C19 }, seed, i),
-        "C10" => kit::print_plan(&sim_f::SimF, seed, i),
-        "C07" => kit::print_plan(&sim_c::SimC7, seed, i),
-        "C04" => kit::print_plan(&sim_c::SimC4, seed, i),
-        "C08" => kit::print_plan(&sim_e::SimE, seed, i),
-        "C12" => kit::print_plan(&sim_d1::SimD1, seed, i),
-        "C06" => kit::print_plan(&sim_d2::SimD2, seed, i),
-        "C20" => kit::print_plan(&sim_g::SimG, seed, i),
-        _ => return 2,
-    }
-    0
+    with_sim!(prop, s => { kit::print_plan(s, seed, i); 0 }, _other => 2)
 }
 
 fn dispatch_replay(file: &serde_json::Value, verif_dir: &str) -> i32 {
     let prop = file["property"].as_str().unwrap_or("");
-    match prop {
-        "C01" => kit::replay(&sim_a::SimA { prop: sim_a::PropA::C01 }, file, verif_dir),
-        "C09" => kit::replay(&sim_a::SimA { prop: sim_a::PropA::C09 }, file, verif_dir),
-        "C03" => kit::replay(&sim_b::SimB { prop: sim_b::PropB::C03 }, file, verif_dir),
-        "C14" => kit::replay(&sim_b::SimB { prop: sim_b::PropB::C14 }, file, verif_dir),
-        "C15" => kit::replay(&sim_b::SimB { prop: sim_b::PropB::C15 }, file, verif_dir),
-        "C19" => kit::replay(&sim_b::SimB { prop: sim_b::PropB::C19 }, file, verif_dir),
-        "C10" => kit::replay(&sim_f::SimF, file, verif_dir),
-        "C07" => kit::replay(&sim_c::SimC7, file, verif_dir),
-        "C04" => kit::replay(&sim_c::SimC4, file, verif_dir),
-        "C08" => kit::replay(&sim_e::SimE, file, verif_dir),
-        "C12" => kit::replay(&sim_d1::SimD1, file, verif_dir),
-        "C06" => kit::replay(&sim_d2::SimD2, file, verif_dir),
-        "C20" => kit::replay(&sim_g::SimG, file, verif_dir),
-        other => {
-            eprintln!("HARNESS-ERROR: no simulator registered for property {other}");
-            2
-        }
-    }
+    with_sim!(prop, s => kit::replay(s, file, verif_dir), other => {
+        eprintln!("HARNESS-ERROR: no simulator registered for property {other}");
+        2
+    })
 }
 
 fn main() {
@@ -132,7 +116,8 @@ fn main() {
                 max_wall_s,
                 verif_dir,
                 shrink_budget: 3000,
-                write_evidence: !args.iter().any(|a| a == "--no-evidence"),
+                // `H:<ID>` (whole-system part alone) is a development aid: it never rewrites the evidence
+                write_evidence: !args.iter().any(|a| a == "--no-evidence") && !prop.starts_with("H:"),
             };
             dispatch_run(prop, &opts)
         }
